@@ -5,6 +5,7 @@
 //!   dmv replay <Cxx> --case '<flat case>'
 //!   dmv selftest
 //!   dmv distinct FILE...
+mod alloc_guard;
 mod ctx;
 mod gen;
 mod json;
@@ -83,6 +84,9 @@ fn arg<'a>(args: &'a [String], name: &str) -> Option<&'a str> {
     args.iter().position(|a| a == name).and_then(|i| args.get(i + 1)).map(|s| s.as_str())
 }
 
+#[global_allocator]
+static ALLOC: alloc_guard::Guard = alloc_guard::Guard;
+
 fn main() {
     let args: Vec<String> = std::env::args().collect();
     ctx::install_panic_hook();
@@ -101,6 +105,9 @@ fn main() {
             let (shard, nshards) = arg(&args, "--shard").and_then(|s| s.split_once('/')).map(|(a, b)| (a.parse().unwrap_or(0), b.parse().unwrap_or(1))).unwrap_or((0, 1));
             let build = arg(&args, "--build").unwrap_or("release");
             let mut c = Ctx::new(&prop, tier, seed, shard, nshards, build);
+            if let Some(mb) = arg(&args, "--mem-mb").and_then(|s| s.parse().ok()) {
+                alloc_guard::set_limit_mb(mb);
+            }
             let hang_secs: u64 = arg(&args, "--hang-secs").and_then(|s| s.parse().ok()).unwrap_or(180);
             ctx::start_watchdog(arg(&args, "--out").map(|s| s.to_string()), prop.clone(), hang_secs);
             // pinned regression cases first (shard 0 only)
@@ -124,6 +131,7 @@ fn main() {
                 std::process::exit(2);
             }
             ctx::watchdog_off();
+            c.max("peak_heap_mb_of_a_shard", (alloc_guard::peak_bytes() >> 20) as u64);
             if let Some(f) = arg(&args, "--keys") {
                 let mut keys: Vec<u64> = c.nontrivial.iter().copied().collect();
                 keys.sort_unstable();
